@@ -216,8 +216,8 @@ class AsyncTask(futures.FutureBase):
             self._last_value = None
             if not _debug_options.KEEP_DEPENDENCIES:
                 self._dependencies = []  # get rid of dependencies to avoid OOM
+            self.running = True
             if error is None:
-                self.running = True
                 return self._generator.send(value)
             else:
                 self._frame = debug.get_frame(self._generator)
